@@ -160,6 +160,33 @@ func (e *svcEnv) do(ctx context.Context, op svcOp) string {
 			return "ERR:" + err.Error()
 		}
 		return o.COp.Add.Err
+	case "readop":
+		// the read-crew operation of the protocol: what it shows is the crew as it is now
+		o := &SOp{GetCrewOp: &GetCrewOp{}}
+		if err := o.Do(ctx, s); err != nil {
+			return "ERR:" + err.Error()
+		}
+		var parts []string
+		if o.GetCrewOp.Crew != nil {
+			for id, m := range o.GetCrewOp.Crew.Machines {
+				node, bs, spec := "", "{}", ""
+				if m != nil && m.SpecSource != nil {
+					spec = m.SpecSource.Name
+				}
+				if m != nil && m.State != nil {
+					node = m.State.NodeName
+					if m.State.Bs != nil {
+						bs = rstep.Canon(map[string]interface{}(m.State.Bs))
+					}
+				}
+				parts = append(parts, fmt.Sprintf("%q:%s/%s/%s", id, spec, node, bs))
+			}
+		}
+		sort.Strings(parts)
+		if shown := strings.Join(parts, ";"); shown != e.memory() {
+			return "STALE: read-crew shows [" + shown + "] but the crew is [" + e.memory() + "]"
+		}
+		return ""
 	case "rem":
 		return errStr(s.RemMachine(ctx, op.Id))
 	case "inc", "poison", "bcast", "half":
@@ -347,6 +374,10 @@ func c16Seq(c *vh.Ctx, dir string, cs c16SeqCase) {
 				return
 			}
 		}
+		if strings.HasPrefix(res, "STALE:") {
+			c.Violation("C16/read-crew-shows-a-crew-that-is-not-the-current-one", fmt.Sprintf("ops %v: %s", cs.Ops[:i+1], res), c16SeqCase{Ops: cs.Ops[:i+1]})
+			return
+		}
 		st, err := e.stored()
 		if err != nil {
 			c.NotExhaustive("cannot read the store back: " + err.Error())
@@ -517,7 +548,7 @@ func C16(c *vh.Ctx) {
 	maxLen := c.Pick(4, 5)
 	alphabet := []svcOp{{K: "add", Id: "m1"}, {K: "add", Id: "m2"}, {K: "add", Id: ""}, {K: "rem", Id: "m1"}, {K: "rem", Id: "ghost"}, {K: "inc", Id: "m1"}, {K: "bcast"}, {K: "poison", Id: "m1"}, {K: "half"}, {K: "down"}, {K: "up"}, {K: "failnext"}, {K: "failcommit"}}
 	c.Bound("fault_sequence_max", maxLen)
-	c.Rule("(sequential fault sequences) every operation sequence up to the bound over {add m1, add m2, add \"\", remove m1, remove a machine that does not exist, process->m1, process broadcast, process a message that makes m1's bindings unserialisable, a broadcast that only some machines of the batch survive (the others end with a value that cannot be stored), store stops working, store works again, the next write transaction fails before it starts, the next write transaction fails at commit} on a real Service over a real bolt file (tmpfs); after every operation the in-memory crew must equal the stored crew (read back through a second handle while the store is down), and an operation that failed must not have changed the crew; also sequences of up to three operations in which add / remove / process requests arrive with a context that has already ended, and in which machines are added through the add operation of the service protocol for a specification with parameter defaults. (schedules) 2-3 client threads issuing process / add / remove / read-crew with yield points inside the machine's action and at the shimmed crew lock, store healthy or failing, every schedule within the deviation bound; the per-operation results and the final (memory, store) must equal those of some sequential order of the operations (the service itself, run sequentially, is the reference), and memory must equal the store. states = sequences + scenarios, transitions = operations + scheduler steps.")
+	c.Rule("(sequential fault sequences) every operation sequence up to the bound over {add m1, add m2, add \"\", remove m1, remove a machine that does not exist, process->m1, process broadcast, process a message that makes m1's bindings unserialisable, a broadcast that only some machines of the batch survive (the others end with a value that cannot be stored), store stops working, store works again, the next write transaction fails before it starts, the next write transaction fails at commit} on a real Service over a real bolt file (tmpfs); after every operation the in-memory crew must equal the stored crew (read back through a second handle while the store is down), and an operation that failed must not have changed the crew; also sequences of up to three operations in which add / remove / process requests arrive with a context that has already ended, and in which machines are added through the add operation of the service protocol for a specification with parameter defaults, and in which the crew is read through the protocol's read-crew operation between requests that reached the service directly (as timers and emitted messages do). (schedules) 2-3 client threads issuing process / add / remove / read-crew with yield points inside the machine's action and at the shimmed crew lock, store healthy or failing, every schedule within the deviation bound; the per-operation results and the final (memory, store) must equal those of some sequential order of the operations (the service itself, run sequentially, is the reference), and memory must equal the store. states = sequences + scenarios, transitions = operations + scheduler steps.")
 	var idx uint64
 	var rec func(cur []svcOp)
 	rec = func(cur []svcOp) {
@@ -542,12 +573,12 @@ func C16(c *vh.Ctx) {
 	// memory and store move together
 	{
 		dead := []svcOp{{K: "add", Id: "m1"}, {K: "inc", Id: "m1"}, {K: "add", Id: "m1", Dead: true}, {K: "add", Id: "m2", Dead: true}, {K: "rem", Id: "m1", Dead: true}, {K: "inc", Id: "m1", Dead: true}, {K: "bcast", Dead: true}, {K: "failnext"},
-			{K: "addop", Id: "m1"}, {K: "addop", Id: "m3"}, {K: "inc", Id: "m3"}}
+			{K: "addop", Id: "m1"}, {K: "addop", Id: "m3"}, {K: "inc", Id: "m3"}, {K: "readop"}}
 		var recDead func(cur []svcOp)
 		recDead = func(cur []svcOp) {
 			special := false
 			for _, o := range cur {
-				if o.Dead || o.K == "addop" {
+				if o.Dead || o.K == "addop" || o.K == "readop" {
 					special = true
 				}
 			}
